@@ -117,6 +117,22 @@ func TestReplay_MCP(t *testing.T) {
 			verifkit.ReportReplay(rf, out.Failure)
 		}
 	}
+	for _, rf := range verifkit.ReplayFiles("TestProp_C18_MCPApply") {
+		var c M18Case
+		if err := json.Unmarshal(rf.Case, &c); err != nil {
+			fmt.Printf("REPLAY-ERROR file=%s err=%v\n", rf.Path, err)
+			continue
+		}
+		verifkit.ReportReplay(rf, runM18(c).Failure)
+	}
+	for _, rf := range verifkit.ReplayFiles("TestProp_C18_MCPFileCrash") {
+		var c M18FileCase
+		if err := json.Unmarshal(rf.Case, &c); err != nil {
+			fmt.Printf("REPLAY-ERROR file=%s err=%v\n", rf.Path, err)
+			continue
+		}
+		verifkit.ReportReplay(rf, runM18File(c).Failure)
+	}
 	for _, rf := range verifkit.ReplayFiles("TestProp_C14_MCP") {
 		var c M14Case
 		if err := json.Unmarshal(rf.Case, &c); err != nil {
